@@ -39,19 +39,19 @@ package dns
 //@   ensures ok:   err == nil ==> off1 == off + 8 && off1 <= len(msg)
 //@   ensures fail: err != nil ==> off1 == len(msg)
 
-//@ func cloneSlice [C02 C16]
+//@ func cloneSlice [C02 C16 C12:fresh]
 //@   ensures len(ret0) == len(s) && (s == nil ==> ret0 == nil)
 //@   ensures fresh: fresh(ret0)
 //@   fresh
 
-//@ func unpackDataA [C01 C02 C16]
+//@ func unpackDataA [C01 C02 C16 C12:fresh]
 //@   ensures only: ret2 != nil ==> off + 4 > len(msg) [C01]
 //@   requires 0 <= off
 //@   ensures ok:   ret2 == nil ==> ret1 == off + 4 && ret1 <= len(msg) && len(ret0) == 4
 //@   ensures fail: ret2 != nil ==> ret1 == len(msg)
 //@   ensures fresh: fresh(ret0)
 
-//@ func unpackDataAAAA [C01 C02 C16]
+//@ func unpackDataAAAA [C01 C02 C16 C12:fresh]
 //@   ensures only: ret2 != nil ==> off + 16 > len(msg) [C01]
 //@   requires 0 <= off
 //@   ensures ok:   ret2 == nil ==> ret1 == off + 16 && ret1 <= len(msg) && len(ret0) == 16
